@@ -40,7 +40,7 @@ def run(chk):
     os.makedirs(work)
 
     nprog = 2 if tier == "quick" else 10
-    nscen = 40 if tier == "quick" else 50
+    nscen = 30 if tier == "quick" else 50
     progs = []     # (name, dir, manifest)
     progs.append(("regress", os.path.join(work, "regress"), None))
     mans = {}
@@ -57,7 +57,7 @@ def run(chk):
         mans[name] = C.mugo(d, seed=chk.seed * 1000 + 999, n=12, stdx=True)
         progs.append((name, d, None))
 
-    specs = C.SOUND4 + EXTRA
+    specs = C.SOUND4 + (EXTRA[:1] if tier == "quick" else EXTRA)
     stats = {"programs": len(progs), "scenarios": 0, "native_flows": 0, "native_noflow": 0, "judgments": 0, "reported_ok": 0,
              "missed_scenarios": 0, "true_negatives": 0, "reported_not_observed": 0, "cross_pairs": 0, "native_panics": 0,
              "tool_timeouts": 0, "tool_panics": 0, "expect_mismatch": 0, "per_config_pairs": {}}
@@ -142,7 +142,7 @@ def run(chk):
             ms.append((sc2, sorted(bad, key=lambda x: ("rw=0" in x, x))[:1]))
         shr = C.shrink(os.path.join(work, "shrink"), ms, specs, timeout=(200 if tier == "quick" else 600))
         for (name, sc, bad), m in zip(all_misses, shr):
-            key = m["key"] + C.cfg_suffix(bad, [s for s in specs])
+            key = C.miss_key(m["key"], bad, specs)
             ent = minimal_keys.setdefault(key, {"n": 0, "example": C.scen_label(sc), "minimal": m["minimal"], "bad": bad, "program": name})
             ent["n"] += 1
         for key, ent in sorted(minimal_keys.items()):
